@@ -213,7 +213,11 @@ mod inner {
     /// [`Collect`]: crate::collect::Collect
     /// [cache-docs]: crate::callsite#rebuilding-cached-interest
     pub fn rebuild_interest_cache() {
+        #[cfg(feature = "verif-hooks")]
+        crate::verif::point(crate::verif::site::RIC_BEFORE_WRITE);
         let mut dispatchers = REGISTRY.dispatchers.write().unwrap();
+        #[cfg(feature = "verif-hooks")]
+        crate::verif::point(crate::verif::site::RIC_AFTER_WRITE);
         let callsites = &REGISTRY.callsites;
         rebuild_interest(callsites, &mut dispatchers);
     }
@@ -229,17 +233,31 @@ mod inner {
     /// [`Callsite`]: crate::callsite::Callsite
     /// [reg-docs]: crate::callsite#registering-callsites
     pub fn register(registration: &'static Registration) {
+        #[cfg(feature = "verif-hooks")]
+        crate::verif::point(crate::verif::site::REG_BEFORE_READ);
         let dispatchers = REGISTRY.dispatchers.read().unwrap();
+        #[cfg(feature = "verif-hooks")]
+        crate::verif::point(crate::verif::site::REG_AFTER_READ);
         rebuild_callsite_interest(&dispatchers, registration.callsite);
+        #[cfg(feature = "verif-hooks")]
+        crate::verif::point(crate::verif::site::REG_AFTER_INTEREST);
         REGISTRY.callsites.push(registration);
+        #[cfg(feature = "verif-hooks")]
+        crate::verif::point(crate::verif::site::REG_AFTER_PUSH);
     }
 
     pub(crate) fn register_dispatch(dispatch: &Dispatch) {
+        #[cfg(feature = "verif-hooks")]
+        crate::verif::point(crate::verif::site::RD_BEFORE_WRITE);
         let mut dispatchers = REGISTRY.dispatchers.write().unwrap();
+        #[cfg(feature = "verif-hooks")]
+        crate::verif::point(crate::verif::site::RD_AFTER_WRITE);
         let callsites = &REGISTRY.callsites;
 
         dispatch.collector().on_register_dispatch(dispatch);
         dispatchers.push(dispatch.registrar());
+        #[cfg(feature = "verif-hooks")]
+        crate::verif::point(crate::verif::site::RD_AFTER_PUSH);
 
         rebuild_interest(callsites, &mut dispatchers);
     }
@@ -288,6 +306,8 @@ mod inner {
 
         callsites.for_each(|reg| rebuild_callsite_interest(dispatchers, reg.callsite));
 
+        #[cfg(feature = "verif-hooks")]
+        crate::verif::point(crate::verif::site::RI_BEFORE_SET_MAX);
         LevelFilter::set_max(max_level);
     }
 }
@@ -449,6 +469,8 @@ impl LinkedList {
                 `tracing-core::callsite::register` once per `Callsite`."
             );
 
+            #[cfg(feature = "verif-hooks")]
+            crate::verif::point(crate::verif::site::LL_PUSH_BEFORE_CAS);
             match self.head.compare_exchange(
                 head,
                 registration as *const _ as *mut _,
@@ -458,6 +480,12 @@ impl LinkedList {
                 Ok(_) => {
                     break;
                 }
+                #[cfg(feature = "verif-hooks")]
+                Err(current) => {
+                    crate::verif::point(crate::verif::site::LL_PUSH_CAS_FAIL);
+                    head = current
+                }
+                #[cfg(not(feature = "verif-hooks"))]
                 Err(current) => head = current,
             }
         }
